@@ -341,13 +341,15 @@ def replay_qed(point, order, dim, steps=1):
     G[0, 0] = 0
     bq = [B.beta_qcd((i + 1, 0), nf) for i in range(1, oq + 1)]
     b21 = B.beta_qcd((2, 1), nf)
-    c2 = B.beta_qed((0, 2), nf, nl)
+    # the kernel takes the coupling path as an argument: the replay supplies a path along which a_em runs visibly
+    # (a smooth RGE with an exaggerated coefficient), so that per-step use of the half-step couplings matters numerically
+    c2 = -30.0
 
     def rge(t, y):
         a, e = y
         return [-(sum(b * a ** (i + 1) for i, b in enumerate(bq, start=1)) + b21 * a * a * e), -c2 * e * e]
 
-    a0, e0 = 0.03, 0.0006
+    a0, e0 = 0.03, 0.01
     hs = [0.8, 0.4, 0.2, 0.1]
     errs = []
     for h in hs:
